@@ -1,7 +1,61 @@
-(* C18 placeholder - replaced when CoverageProofs.v is in place *)
+(* C18 - rexpy coverage figures equal true match counts and account for all examples.
+   rows = the stored distinct examples with their frequencies and, per expression, whether the
+   terminated expression matches the example (re.match: an oracle; any table is allowed). *)
 From Coq Require Import ZArith List Bool.
-From Tdda Require Import Base.Sexp Base.Str Rexpy.Coverage.
+From Tdda Require Import Base.Sexp Base.Str Rexpy.Coverage Rexpy.CoverageProofs.
 Import ListNotations.
-Theorem C18_terminate_example : terminate [97] = [94; 97; 36] /\ terminate [94; 97; 36] = [94; 97; 36].
-Proof. split; reflexivity. Qed.
-Print Assumptions C18_terminate_example.
+Open Scope Z_scope.
+
+(* each expression's coverage = the number of examples it matches, counting or ignoring repeats *)
+Theorem C18_coverage_exact : forall rows np dedup p, (p < np)%nat ->
+  nth p (coverage rows np dedup) 0 =
+  fold_right Z.add 0 (map (fun r => if nth p (er_match r) false then weight dedup r else 0) rows).
+Proof. exact coverage_exact_proof. Qed.
+Print Assumptions C18_coverage_exact.
+
+(* the incremental counts sum to the total number of examples (both ways of counting, whichever
+   way the list is ordered) when every example is matched by some expression (C03) *)
+Theorem C18_incr_sum_total : forall rows np sort_dedup dedup,
+  (forall r, In r rows -> 0 < er_freq r) ->
+  (forall r, In r rows -> matched_by_some np r = true) ->
+  sum_incr dedup (incremental rows np sort_dedup) = n_examples rows dedup.
+Proof. exact incr_sum_total_proof. Qed.
+Print Assumptions C18_incr_sum_total.
+
+(* expressions are listed in non-increasing order of newly explained examples *)
+Theorem C18_incr_nonincreasing : forall rows np sort_dedup,
+  (forall r, In r rows -> 0 <= er_freq r) ->
+  nonincreasing (map (key sort_dedup) (incremental rows np sort_dedup)).
+Proof. exact incr_nonincreasing_proof. Qed.
+Print Assumptions C18_incr_nonincreasing.
+
+(* each example is credited to exactly one expression: the first listed one that matches it *)
+Theorem C18_incr_credit : forall rows np sort_dedup,
+  let res := incremental rows np sort_dedup in
+  forall c, In c res -> c_incr c = credit false (map c_rex res) rows (c_rex c) /\
+                        c_incr_uniq c = credit true (map c_rex res) rows (c_rex c).
+Proof. exact incr_credit_proof. Qed.
+Print Assumptions C18_incr_credit.
+
+(* no expression is listed twice *)
+Theorem C18_selected_distinct : forall rows np sort_dedup, NoDup (map c_rex (incremental rows np sort_dedup)).
+Proof. exact selected_distinct_run. Qed.
+Print Assumptions C18_selected_distinct.
+
+(* the reported number of examples: sum of the frequencies, or the number of distinct examples *)
+Theorem C18_n_examples : forall rows,
+  n_examples rows false = fold_right Z.add 0 (map er_freq rows) /\
+  n_examples rows true = Z.of_nat (length rows).
+Proof. intro rows. split; reflexivity. Qed.
+Print Assumptions C18_n_examples.
+
+(* non-vacuity: three examples, two expressions; the second expression explains only the example
+   the first does not *)
+Example C18_example :
+  let rows := [ {| er_freq := 2; er_match := [true; true] |};
+                {| er_freq := 1; er_match := [true; false] |};
+                {| er_freq := 5; er_match := [false; true] |} ] in
+  coverage rows 2 false = [3; 7] /\ coverage rows 2 true = [2; 2] /\
+  map (fun c => (c_rex c, c_incr c)) (incremental rows 2 false) = [(1%nat, 7); (0%nat, 1)] /\
+  (forall r, In r rows -> matched_by_some 2 r = true).
+Proof. vm_compute. repeat split; try reflexivity. intros r [<-|[<-|[<-|[]]]]; reflexivity. Qed.
